@@ -104,12 +104,27 @@ def sbool(c):
     return mk_bool(c)
 
 
+_RANGE_CACHE = {}
+WIDTH_SPAN = {1: (0, 0x7f), 2: (0x80, 0x7ff), 3: (0x800, 0xffff), 4: (0x10000, 0x10ffff)}
+
+
 def in_ranges(ch, ranges):
     """char value in any of the inclusive ranges (python ints)"""
     if ch.concrete:
         return any(lo <= ch.v <= hi for lo, hi in ranges)
     z = ch.z()
-    return z_or([(z == lo) if lo == hi else z3.And(z3.UGE(z, lo), z3.ULE(z, hi)) for lo, hi in ranges])
+    key = (z.get_id(), tuple(ranges), ch.width if ch.ty == "char" else None)
+    hit = _RANGE_CACHE.get(key)
+    if hit is not None:
+        return hit[1]
+    if ch.ty == "char" and ch.width:
+        wlo, whi = WIDTH_SPAN[ch.width]
+        ranges = [(max(lo, wlo), min(hi, whi)) for lo, hi in ranges if hi >= wlo and lo <= whi]
+    r = z_or([(z == lo) if lo == hi else z3.And(z3.UGE(z, lo), z3.ULE(z, hi)) for lo, hi in ranges])
+    if len(_RANGE_CACHE) > 200000:
+        _RANGE_CACHE.clear()
+    _RANGE_CACHE[key] = (z, r)   # keep z alive so the ast id is not reused
+    return r
 
 
 WHITESPACE = [(9, 13), (0x20, 0x20), (0x85, 0x85), (0xA0, 0xA0), (0x1680, 0x1680), (0x2000, 0x200A),
@@ -1080,6 +1095,7 @@ def register_all(M):
     M.add(IT + r"::next", it_next)
     M.add(IT + r"::next_back", it_next_back)
     M.add(IT + r"::into_iter", lambda c, m, a: to_iter(c, a[0]))
+    M.add(IT + r"::by_ref", lambda c, m, a: a[0])
     M.add(IT + r"::rev", lambda c, m, a: RevIt(it_of(a[0])))
     M.add(IT + r"::enumerate", lambda c, m, a: EnumerateIt(it_of(a[0])))
     M.add(IT + r"::skip", lambda c, m, a: SkipIt(it_of(a[0]), conc(a[1], "skip count")))
@@ -1168,6 +1184,16 @@ def register_all(M):
     M.add(r"<(?:usize|u8|u16|u32|u64|i32|i64|isize|bool|char) as Clone>::clone", lambda c, m, a: deref(a[0]))
     M.add(r"<&.* as Clone>::clone", lambda c, m, a: deref(a[0]) if isinstance(a[0], Ref) and isinstance(deref(a[0]), (Str, Slice)) else a[0].loc.get())
     M.add(r"std::mem::drop::<.*>|core::mem::drop::<.*>", lambda c, m, a: UNIT)
+
+    def box_new_uninit(c, m, a):
+        return Agg("Box", None, [Agg("Unique", None, [new_ref(None, True)])])
+
+    def box_into_vec(c, m, a):
+        cellv = a[0].fields[0].fields[0].loc.get()
+        arr = cellv.fields[1].fields[0].fields[0]
+        return VecBuf(list(arr.items))
+    M.add(r"Box::<\[.*; \d+\]>::new_uninit", box_new_uninit)
+    M.add(r"std::boxed::box_assume_init_into_vec_unsafe::<.*>", box_into_vec)
 
     def box_new(c, m, a):
         return Agg("Box", None, [new_ref(a[0], True)])
